@@ -285,7 +285,7 @@ def run_dateline(case):
         alts = (np.array([c['as'], 3]) / Q + PAD) * 1000.0
         times = (np.array([c['ts'], 5]) / Q + PAD) * 600.0
         try:
-            tl, to, ta, tt, sv, iv = grid_twice(g, lats, lons, alts, times, state_variables=(np.array([7.0, 9.0]),), integrated_variables=(np.array([VALUE]), whole_var()))
+            tl, to, ta, tt, sv, iv = grid_twice(g, lats, lons, alts, times, state_variables=(np.array([7.0, 9.0]), np.array([70.0, 90.0])), integrated_variables=(np.array([VALUE]), whole_var()))
         except Exception as e:
             return [(pr, f'dateline-raised-{type(e).__name__}', f'antimeridian case {c}: raised {type(e).__name__}: {e}') for pr in _props_of(e)]
         n = len(tl)
@@ -298,6 +298,12 @@ def run_dateline(case):
             devs.append(('C05', 'dateline-altitude-or-time-cell', f'antimeridian case {c}: pieces carry altitude cells {sorted(ac)} and time cells {sorted(tc)}; specification: those of the start point ({case["acell"]}, {case["tcell"]})'))
         if any(float(sv[0][i]) != 7.0 for i in live):
             devs.append(('C05', 'dateline-state-not-from-start-point', f'antimeridian case {c}: state values {sorted(set(np.asarray(sv[0]).tolist()))}; specification: 7.0'))
+        # every state variable carries ITS OWN start-point value (two state variables: 7 / 9 and 70 / 90)
+        if len(sv) < 2 or len(sv[1]) != n or any(float(sv[1][i]) != 70.0 for i in live):
+            devs.append(('C05', 'dateline-second-state-variable', f'antimeridian case {c}: the second state variable (70 at the start point) comes back as {sorted(set(np.asarray(sv[1]).tolist())) if len(sv) > 1 else None}'))
+        # ... and every integrated variable ITS OWN pieces: the whole-number variable's pieces are WHOLE / VALUE of the first one's
+        if len(iv) > 1 and len(iv[1]) == n and any(abs(float(iv[1][i]) * VALUE - float(iv[0][i]) * WHOLE) > 1e-6 * VALUE for i in live):
+            devs.append(('C05', 'dateline-variables-mixed-up', f'antimeridian case {c}: the pieces of the second integrated variable {np.asarray(iv[1]).tolist()} are not {WHOLE}/{VALUE:g} of the first one\'s {np.asarray(iv[0]).tolist()}'))
         devs += whole_devs(f'antimeridian case {c}', iv[0], [VALUE], iv[1], whole_var())
         total = float(np.sum(iv[0])) / VALUE
         if not (1 - 1e-9 <= total <= 1 + 1e-6):
